@@ -32,6 +32,8 @@ type C07Ev struct {
 	Q       int    // which query (start: index; others: index among started queries, mod)
 	Variant string // correct | correct-error | wrong-port | wrong-ip | mapped | t-inc | t-prefix | t-ext | t-empty | t-other | dup
 	Other   int
+	// Last: the event refers to the most recently started query instead of Q
+	Last bool
 }
 
 type C07Sc struct {
@@ -85,6 +87,17 @@ func genC07(t *rapid.T) C07Sc {
 		switch {
 		case started == 0 || (remainingStarts > 0 && (roll < 3 || n-i <= remainingStarts)):
 			sc.Evs = append(sc.Evs, C07Ev{Kind: "start", Q: started})
+			if sc.Qs[started].Held && rapid.Bool().Draw(t, "ev.heldchain") {
+				// the abandoned-query shape: cancel and reply while the sender is parked, then release
+				chain := []C07Ev{{Kind: "cancel", Last: true}, {Kind: "dgram", Variant: "correct", Last: true}}
+				if rapid.Bool().Draw(t, "ev.chainorder") {
+					chain[0], chain[1] = chain[1], chain[0]
+				}
+				if rapid.Bool().Draw(t, "ev.chainrelease") {
+					chain = append(chain, C07Ev{Kind: "release", Last: true})
+				}
+				sc.Evs = append(sc.Evs, chain...)
+			}
 			started++
 		case roll < 8:
 			sc.Evs = append(sc.Evs, C07Ev{Kind: "dgram", Q: rapid.IntRange(0, 31).Draw(t, "ev.q"), Variant: rapid.SampledFrom(c07Variants).Draw(t, "ev.variant"), Other: rapid.IntRange(0, 31).Draw(t, "ev.other")})
@@ -284,6 +297,9 @@ func runC07(sc C07Sc, c *kit.Case) *kit.Violation {
 
 	for ei, ev := range sc.Evs {
 		what := fmt.Sprintf("event %d %s", ei, ev.Kind)
+		if ev.Last && len(startedIdx) > 0 {
+			ev.Q = len(startedIdx) - 1
+		}
 		switch ev.Kind {
 		case "start":
 			if v := startQuery(ev.Q); v != nil {
